@@ -1,7 +1,7 @@
 (* C11 lemmas, part 4: fits written by `search.fit` (write_fit) loaded from the directory agree with
    the same fits written through a session (direct_row); the two variants of the grid-search id. *)
 From Coq Require Import List String Bool ZArith Lia.
-From PAFC11 Require Import Lib Model Proofs Proofs3.
+From PAFC11 Require Import Lib Gen Model Proofs Proofs3.
 Import ListNotations.
 Open Scope string_scope.
 Open Scope list_scope.
@@ -224,4 +224,37 @@ Proof.
     + intros f [<-|[]]. split; reflexivity.
     + vm_compute. repeat constructor; simpl; intuition discriminate.
   - eexists. split; [vm_compute; reflexivity|]. intros r [<-|[]] _. vm_compute. discriminate.
+Qed.
+
+(* ---------- the code as it is now (Gen.v is regenerated from /repo on every run) ---------- *)
+
+(* GridSearchOutput.id returns the folder name: this fails to compile if the source goes back to the marker text *)
+Lemma current_grid_id_is_folder : gs_id_uses_folder = true.
+Proof. reflexivity. Qed.
+
+Lemma current_gs_id (g : folder) : gs_id gs_id_uses_folder g = folder_name g.
+Proof. rewrite current_grid_id_is_folder. reflexivity. Qed.
+
+Theorem grid_current (classes : list search_class) (co : bool) (dir : list folder) :
+  wf classes gs_id_uses_folder co dir ->
+  cells_disjoint gs_id_uses_folder co dir -> parent_files_consistent gs_id_uses_folder co dir ->
+  exists db, scrape classes gs_id_uses_folder co dir [] = Loaded db /\
+    forall g, In g (grids co dir) ->
+      (exists r, In r db /\ r_id r = folder_name g /\ r_grid r = true /\ r_parent r = None /\
+                 r_complete r = Some (f_completed g) /\ r_tag r = f_marker g /\ r_jsons r = f_jsons g) /\
+      (forall r', In r' db -> (r_parent r' = Some (folder_name g) <-> In (r_id r') (cell_ids co dir g))).
+Proof.
+  rewrite current_grid_id_is_folder. exact (grid_links classes true co dir).
+Qed.
+
+(* distinct grid-search FOLDERS and fit identifiers are all that is needed now: the directory that the
+   pinned code could not load is well formed for the current code *)
+Lemma two_grids_current : wf [] gs_id_uses_folder false two_grids /\
+  exists db, scrape [] gs_id_uses_folder false two_grids [] = Loaded db /\ map r_id (filter r_grid db) = ["aaa"; "bbb"].
+Proof.
+  rewrite current_grid_id_is_folder. split.
+  - split.
+    + intros f Hf. vm_compute in Hf. destruct Hf as [<-|[<-|[]]]; split; reflexivity.
+    + vm_compute. repeat constructor; simpl; intuition discriminate.
+  - eexists. split; vm_compute; reflexivity.
 Qed.
